@@ -394,6 +394,15 @@ def explore_converted(ck):
                             ck.judge('ctor-text-convert',
                                      Money(f"{q2.amount} {c2}", u1), y * r21,
                                      c, u1)
+                            # exchange-rate application (no converter
+                            # involved): 1 c2 = r21 c1
+                            from quantity.money import ExchangeRate
+                            rate = ExchangeRate(u2, 1, u1, r21)
+                            rv = O.fr(rate.rate)
+                            c = dict(c, op='rate')
+                            ck.judge('rate*m', rate * q2, y * rv, c, u1)
+                            ck.judge('m*rate', q2 * rate, y * rv, c, u1)
+                            ck.judge('m/rate', q1 / rate, x / rv, c, u2)
                         except Exception as exc:
                             st.violation('C05:converted:raises',
                                          f"{c}: {type(exc).__name__}: {exc}",
